@@ -307,6 +307,17 @@ def _judge_answer(ctx, P, key, o, q):
     same = ctx.close(_vec(el), _vec(exp), TOL,
                      f'{P}: elements = those of a fresh object asked (date, place, height, frame) with an explicit decimal date',
                      key)
+    # interleaving with ANOTHER object (other date, place, frame) must not change what this object reports
+    try:
+        W_ = _lib()
+        decoy = W_.WMM(date=2016.3, latitude=-40.0, longitude=100.0, height=30.0, frame='ENU' if frame == 'NED' else 'NED')
+        decoy.magnetic_field(65.0, -150.0, 2.0, date=2027.1)
+        el2 = {n: float(v) for n, v in dict(o.magnetic_elements).items()}
+        gv2 = np.asarray(o.geodetic_vector, float)
+        ctx.expect(el2 == el and np.array_equal(gv2, np.asarray(gv, float)), f'{P}: what the object reports is not changed by evaluating another WMM object', key, el2, el)
+    except Exception as ex:
+        ctx.tick()
+        ctx.fail(f'{P}: what the object reports is not changed by evaluating another WMM object', key, f'{type(ex).__name__}: {ex}'[:120], el)
     dev = float(np.max(np.abs(np.array(_vec(el)) - np.array(_vec(exp)))))
     ctx.track('dev.vs_fresh(cases within tolerance)' if same else 'info.dev.vs_fresh(violating cases)', dev)
     # mutual consistency of what the object reports
